@@ -421,12 +421,12 @@ Proof.
   (* stage 1 *)
   assert (E1 :
     match st t' with
-    | SynSent | Closing => false
+    | SynSent => false
     | _ => negb (is_seq_ok t' (zlen (s_text s)) (wadd (h_seq (s_hdr s)) dP)
                    (c_syn (h_ctl (s_hdr s))) (c_fin (h_ctl (s_hdr s))))
     end =
     match st t with
-    | SynSent | Closing => false
+    | SynSent => false
     | _ => negb (is_seq_ok t (zlen (s_text s)) (h_seq (s_hdr s))
                    (c_syn (h_ctl (s_hdr s))) (c_fin (h_ctl (s_hdr s))))
     end).
